@@ -387,10 +387,13 @@ def obligations(tier):
     # alone, also when they are held as arrays (checks/c11.py obligations
     # with the source-unchanged claims switched on)
     from . import c11
-    for dim in ('COL', 'ROW'):
+    for dim in ('COL', 'ROW', 'LAY'):
         for kind in ('int', 'slice'):
             for attr in ('scalar', 'array'):
-                o = c11.Subset(dim, kind, R=3 if dim == 'ROW' else 2,
+                if dim == 'LAY' and attr == 'array':
+                    continue
+                o = c11.Subset(dim, kind, L=3 if dim == 'LAY' else 2,
+                               R=3 if dim == 'ROW' else 2,
                                C=3 if dim == 'COL' else 2, year=2004,
                                attr=attr)
                 o.check_source = True
